@@ -34,7 +34,7 @@ var codecExemptFields = map[string]string{
 }
 
 func runC19(c *core.Ctx) {
-	c.Explanation = "Structural necessary conditions of the codec, decided on SSA/typed AST of ast/codec: (codec.dispatch) Encoder.encode/encodeExpression have an arm for every statement/expression kind the parser hands out, and the set of frame-type constants the encoder emits equals the set the decoder consumes (case labels, peekFrameIs arguments, Type() comparisons); (codec.fields) for every node kind and every semantic field (presentational ones excepted, one reason each) an Encoder method reads it and a Decoder method writes it (mirror by *types.Var); (codec.loops) in every frame loop of the decoder, the branch taken for a FIN frame and the branch taken for an unknown frame (truncated input: nextFrame yields UNKNOWN forever) leave the loop, or first pass the frame to decode/decodeExpression whose default arms fail — a loop with no such exit spins at end of input; other loops are a reviewed, named set; (codec.bounds) every constant index/slice bound applied to bytes returned by Frame.Read is dominated by a test of their length; (codec.narrow) a length is not truncated into the 16-bit size field without a bound test; (codec.errdrop) the error of Encoder.encode is never discarded. Decides which fields travel and that the decoder has an exit at end of input, not equality of decoded values. (codec.fullread) a Read whose byte count is discarded asks for a single byte; multi-byte fields are read with io.ReadFull or use the count."
+	c.Explanation = "Structural necessary conditions of the codec, decided on SSA/typed AST of ast/codec: (codec.dispatch) Encoder.encode/encodeExpression have an arm for every statement/expression kind the parser hands out, and the set of frame-type constants the encoder emits equals the set the decoder consumes (case labels, peekFrameIs arguments, Type() comparisons); (codec.fields) for every node kind and every semantic field (presentational ones excepted, one reason each) an Encoder method reads it and a Decoder method writes it (mirror by *types.Var); (codec.loops) in every frame loop of the decoder, the branch taken for a FIN frame and the branch taken for an unknown frame (truncated input: nextFrame yields UNKNOWN forever) leave the loop, or first pass the frame to decode/decodeExpression whose default arms fail — a loop with no such exit spins at end of input; other loops are a reviewed, named set; (codec.bounds) every constant index/slice bound applied to bytes returned by Frame.Read is dominated by a test of their length; (codec.narrow) a length is not truncated into the 16-bit size field without a bound test; (codec.errdrop) the error of Encoder.encode is never discarded. Decides which fields travel and that the decoder has an exit at end of input, not equality of decoded values. (codec.fullread) a Read whose byte count is discarded asks for a single byte; multi-byte fields are read with io.ReadFull or use the count. (codec.depth) the decoder's recursion needs a depth counter (recorded finding); peek loops and counted loops are recognised."
 	c.NotCovered = []string{"equality of decoded values (UTF-8 re-encoding, float bit patterns)", "a field carried for one context but dropped in another is masked", "that Frame.Read handles every reader behaviour"}
 	prog := c.Prog
 	u := newAstUniverse(prog)
